@@ -507,7 +507,8 @@ func (fr *Frame) enterLoop(head *ssa.BasicBlock, ord int, in *State) *State {
 	for _, cl := range invs {
 		env := ex.specEnv(fr, in, ex.entry)
 		env.loopEntry = in
-		g := env.evalBool(cl.Expr)
+		g, sk := env.evalGoalSkolem(cl.Expr)
+		ex.instantiateHyps(sk)
 		ex.oblige("inv-init", fmt.Sprintf("loop%d%s", ord, labelSuffix(cl)), in, g, head.Instrs[0].Pos(), cl.Props)
 	}
 	// 2. havoc
@@ -633,6 +634,19 @@ func (fr *Frame) enterLoop(head *ssa.BasicBlock, ord int, in *State) *State {
 		env.loopEntry = in
 		g := env.evalBool(cl.Expr)
 		ex.cx.assume(implies(st.reach, g))
+		// keep it available for instantiation at goal constants
+		cl, headSt, inSt := cl, st.clone(), in
+		ex.qhyps = append(ex.qhyps, qhyp{guard: st.reach, inst: func(sk map[string]SVal) (Term, bool) {
+			henv := ex.specEnv(fr, headSt, ex.entry)
+			henv.loopEntry = inSt
+			nUnsup := len(ex.cx.unsupported)
+			t := henv.evalInstance(cl.Expr, sk)
+			if len(ex.cx.unsupported) != nUnsup {
+				ex.cx.unsupported = ex.cx.unsupported[:nUnsup]
+				return Term{}, false
+			}
+			return t, true
+		}})
 	}
 	if fr.isTop && ex.fc != nil {
 		for _, cl := range ex.fc.LoopAssume[ord] {
@@ -684,20 +698,7 @@ func (fr *Frame) closeLoop(head *ssa.BasicBlock, ord int, st *State, from *ssa.B
 		env := ex.specEnv(fr, st, ex.entry)
 		env.loopEntry = lc.entry
 		g, sk := env.evalGoalSkolem(cl.Expr)
-		if len(sk) > 0 {
-			// the invariant assumed at the head, instantiated at the goal's constants
-			for _, cl2 := range invs {
-				henv := ex.specEnv(fr, lc.headSt, ex.entry)
-				henv.loopEntry = lc.entry
-				nUnsup := len(ex.cx.unsupported)
-				inst := henv.evalInstance(cl2.Expr, sk)
-				if len(ex.cx.unsupported) == nUnsup {
-					ex.cx.assume(implies(lc.headSt.reach, inst))
-				} else {
-					ex.cx.unsupported = ex.cx.unsupported[:nUnsup]
-				}
-			}
-		}
+		ex.instantiateHyps(sk)
 		ex.oblige("inv-pres", fmt.Sprintf("loop%d%s", ord, labelSuffix(cl)), st, g, pos, cl.Props)
 	}
 	if lc.frame != nil {
